@@ -3,6 +3,7 @@ import ast
 import re
 from ..model import own_nodes, AnalysisError
 from ..paths import factmap, call_text, returns, must_call
+from ..defuse import closed_text
 from ..escape import Escape
 
 DOC_INTERVAL = re.compile(r'\[``(-?\d+(?:\.\d+)?)``\s*;\s*``(-?\d+(?:\.\d+)?)``\]')
@@ -73,6 +74,10 @@ def converter_interval(P, u, limits=None):
                 len(t.operand.ops) == 2 and all(isinstance(o, ast.LtE) for o in t.operand.ops):
             c = t.operand
             lo, hi = const_num(P, u.mod, u.cls, c.left), const_num(P, u.mod, u.cls, c.comparators[1])
+            if limits and ast.unparse(c.left) == 'limits[0]':
+                lo = limits[0]
+            if limits and ast.unparse(c.comparators[1]) == 'limits[1]':
+                hi = limits[1]
             return (lo, hi, True, ast.unparse(c.comparators[0]))
         return ('?', ast.unparse(t))
     return None
@@ -164,8 +169,19 @@ def run(P, R):
         k.arg == 'key' and isinstance(k.value, ast.Lambda) and
         ast.unparse(k.value.body) == 'len(%s[1])' % k.value.args.args[0].arg for k in mx[0].keywords)
     ap = [c for c in own_nodes(u.node) if isinstance(c, ast.Call) and call_text(c) == 'matching_patterns.append']
-    ok = ok and len(ap) == 1 and ast.unparse(ap[0].args[0]) == '(pattern, mo.group())' and \
-        factmap(u).has(ap[0], 'mo', True)
+    # name-independent (closed forms): the entry is (pattern, <match of the pattern>.group()) under a truthy match, and
+    # the value returned is element 0 of the maximum
+    ok = ok and len(ap) == 1 and isinstance(ap[0].args[0], ast.Tuple) and len(ap[0].args[0].elts) == 2
+    if ok:
+        srch = "re.search(f'({%s})', name)" % closed_text(u, ap[0].args[0].elts[0])
+        ok = closed_text(u, ap[0].args[0].elts[1]) == srch + '.group()' and (srch, True) in factmap(u).closed(ap[0]) \
+            and any(isinstance(l, ast.For) and ast.unparse(l.iter) == 'patterns' and
+                    closed_text(u, l.target) == closed_text(u, ap[0].args[0].elts[0]) for l in own_nodes(u.node))
+    rets = [v for v, f, n in returns(u) if v is not None and not (isinstance(v, ast.Constant) and v.value is None)]
+    best = [a.targets[0].elts[0].id for a in own_nodes(u.node) if isinstance(a, ast.Assign) and mx and a.value is mx[0]
+            and isinstance(a.targets[0], ast.Tuple) and isinstance(a.targets[0].elts[0], ast.Name)]
+    ok = ok and len(rets) == 1 and (closed_text(u, rets[0]) == closed_text(u, mx[0]) + '[0]' or
+                                    isinstance(rets[0], ast.Name) and best == [rets[0].id])
     R.check(r2, ok, 'the best pattern is the one with the longest captured text', 'best-pattern|max-len', u.loc(),
             'get_best_pattern does not select max(matching_patterns, key=len(captured text))')
     fm = factmap(u)
